@@ -139,6 +139,21 @@ def k3_values(run, rng, n):
             out = flox.rechunk_for_blockwise(arr, axis=-1, labels=labels)
             ok = (out.shape == arr.shape and out.dtype == arr.dtype and out.chunks[0] == arr.chunks[0]
                   and np.array_equal(out.compute(), data) and arr.chunks[1] == tuple(chunks))
+            # the PUBLIC helper with the same runs under other label VALUES (all-negative, mixed-sign, descending, float, large, string
+            # labels): the postconditions do not depend on what the labels are called
+            for kind, tl in (("all-negative", labels - int(labels.max()) - 3), ("mixed-sign", labels - int(labels.max()) // 2 - 1), ("descending", -labels),
+                             ("float", labels * 0.5 - 1.25), ("large", labels * 1000 + 10 ** 6), ("string", np.array([f"g{int(x):02d}" for x in labels]))):
+                try:
+                    o2 = flox.rechunk_for_blockwise(arr, axis=-1, labels=tl)
+                except Exception as e:  # noqa: BLE001
+                    ok = False
+                    ds_problem = {"label_values": kind, "labels": tl.tolist(), "raised": repr(e)[:200]}
+                    break
+                nc = list(o2.chunks[-1])
+                if any(c <= 0 for c in nc) or sum(nc) != m or straddles(tl.tolist(), nc) or o2.chunks[0] != arr.chunks[0]:
+                    ok = False
+                    ds_problem = {"label_values": kind, "labels": tl.tolist(), "new_chunks": nc, "group_straddles_boundaries_at": straddles(tl.tolist(), nc)}
+                    break
             res, _ = flox.groupby_reduce(out, labels, func="sum", method="blockwise")
             want = np.stack([np.bincount(labels, weights=row) for row in data])
             ok = ok and np.array_equal(np.asarray(res.compute()), want)
